@@ -6,7 +6,7 @@ import FlVerif.Lemmas.CodeLoadAnte
 `Antecedent.load` reads the postfix tokens with its five-flag state machine (`Op.antecedentLoadPostfix`); the tree it
 builds, rendered by `Antecedent.postfix`, is the list of these tokens joined by single blanks - token for token. -/
 
-namespace CodeW5Z
+namespace CodeW5ZR
 open Lang Op Op.AntecedentText Py.Load
 
 /-! ## the state machine keeps the tokens -/
@@ -203,4 +203,4 @@ theorem antecedent_postfix_of_load (e : EngineInfo) (pf : List String) (a : ANod
   rw [ht, pfx_of_load e pf a hl] at h
   exact h
 
-end CodeW5Z
+end CodeW5ZR
